@@ -246,7 +246,9 @@ class Checker:
         wtexts = [str(w.message)[:160] for w in wl if issubclass(w.category, RuntimeWarning)]
         info = dict(exp=exp, got=got, w=ev["w"], ex=ev["ex"], warnings=wtexts,
                     lasti=fr.pyframe.f_lasti, lineno=fr.lineno)
-        if self.mode == "referents":
+        if self.mode == "trickfault":
+            self.check_trickfault(env, ev, exp, st, obj, info)
+        elif self.mode == "referents":
             self.check_referents(env, ev, exp, got, info)
         else:
             if wtexts:
@@ -290,6 +292,46 @@ class Checker:
                 loc = fr.pyframe.f_locals
                 if not (vn in loc and loc[vn] is c.obj):
                     self.bad("varname %r for an item without target is not a local bound to the manager" % vn, meta=True, tgt=tsrc, **info)
+
+    def check_trickfault(self, env, ev, exp, st, obj, info):
+        """C20: an exception at any internal step of the trickery analysis must only warn (InspectionWarning) and
+        fall back to a result that obeys the referents rule"""
+        from stackscope import _lowlevel
+        fr = st.frames[0]
+        nxt = st.frames[1].pyframe if len(st.frames) > 1 else None
+        for fname in ("analyze_with_blocks", "inspect_frame", "currently_exiting_context"):
+            orig = getattr(_lowlevel, fname)
+            state = {"fired": False}
+
+            def faulty(*a, _orig=orig, _state=state, **k):
+                if not _state["fired"]:
+                    _state["fired"] = True
+                    raise RuntimeError("injected fault in " + fname)
+                return _orig(*a, **k)
+            setattr(_lowlevel, fname, faulty)
+            try:
+                import contextlib, io
+                with warnings.catch_warnings(record=True) as wl, contextlib.redirect_stderr(io.StringIO()):
+                    warnings.simplefilter("always")
+                    try:
+                        low = lowlevel.contexts_active_in_frame(fr.pyframe, obj, nxt)
+                    except BaseException as ex:
+                        self.bad("fault in %s: contexts_active_in_frame raised %r" % (fname, ex), **info)
+                        continue
+            finally:
+                setattr(_lowlevel, fname, orig)
+            if not state["fired"]:
+                continue
+            self.fault_points = getattr(self, "fault_points", 0) + 1
+            cats = [w.category.__name__ for w in wl]
+            if not cats or any(c != "InspectionWarning" for c in cats):
+                self.bad("fault in %s: expected exactly InspectionWarning(s), got %s" % (fname, cats), **info)
+            got = observed_contexts(env, low)
+            info2 = dict(info, got=got, warnings=[])
+            n0 = len(self.mismatches)
+            self.check_referents(env, ev, exp, got, info2)
+            for mm in self.mismatches[n0:]:
+                mm["what"] = "fault in %s: %s" % (fname, mm["what"])
 
     def check_referents(self, env, ev, exp, got, info):
         """C20: ordered super-sequence; extras only the entering / exiting manager; is_exiting iff exit in progress"""
